@@ -11,11 +11,11 @@ import ast
 import re
 
 from sa import sigdata
-from sa.interp import Interp, Scenario, Sym, Const, Bytes, render
+from sa.interp import Interp, Scenario, Sym, Const, Enum, render
 from sa.loader import AnalysisError, dotted
-from sa.cfg import CFG, calls_in
 from sa import verdict
 from sa import families
+from sa import guards
 
 
 def run(rep, prog, tier):
@@ -39,74 +39,61 @@ def run(rep, prog, tier):
 
 # ------------------------------------------------------------------------------------------------ C01.2
 def check_verify_wiring(rep, prog):
+    """The pair examined is whatever the verification loop binds (canonical $k_0 / $k_1 when the pair list is summarised, the
+    element values when it is statically known); every expectation is built from that pair, never from variable names."""
     fi = prog.method('pgpy.pgp', 'PGPKey', 'verify')
     rep.saw(fn=fi)
-    seen_crypto = 0
+    vp = fi.params[1:3]                                     # (subject, signature) of the delegated PGPKey.verify
     for verdict_truthy, detached in ((False, False), (True, False), (False, True), (True, True)):
-        S, J = ('signature', 'subject') if detached else ('$1_0', '$1_1')     # loop variables carry canonical names
-        scen_args = {'subject': Sym('subject', types={'bytes'}, nonnull=True),
-                     'signature': Sym('signature', types={'PGPSignature'}, nonnull=True)} if detached else \
-                    {'subject': Sym('subject', types={'PGPUID'}, nonnull=True), 'signature': Const(None)}
-        def oracle(t, _v=verdict_truthy):
-            if t.startswith('self._key.verify(') or t.startswith('not self._key.verify('):
-                return _v if not t.startswith('not ') else (not _v)
-            if 'causes_signature_verify_to_fail' in t:
-                return False    # follow the arm where the key is not disqualified
-            return None
-        sc = Scenario(args=scen_args, oracle=oracle, inline=lambda f: False,
-                      axioms={'(len(sspairs) == 0)': False, 'sspairs': True})
-        I = Interp(prog, sc)
-        outs = I.run(fi)
+        fi, outs, _ = verdict.run_verify(prog, detached=detached, F=False, V=verdict_truthy)
         rep.analysed['paths'] += len(outs)
-        crypto_calls, records, delegations = [], [], []
-        for s in outs:
-            for c in s.calls:
-                ft, args, kw, line, node = c
-                if ft == 'self._key.verify':
-                    if c not in crypto_calls:
-                        crypto_calls.append(c)
-                elif ft.endswith('.add_sigsubj'):
-                    if c not in records:
-                        records.append(c)
-                elif ft.endswith('.verify') and ft.startswith('self.subkeys['):
-                    if c not in delegations:
-                        delegations.append(c)
-        rep.analysed['call_sites'] += len(crypto_calls) + len(records) + len(delegations)
-        if not crypto_calls:
+        crypto, records, delegations = verdict.collect(outs)
+        rep.analysed['call_sites'] += len(crypto) + len(records) + len(delegations)
+        scen = 'library verify %s, %s' % ('accepts' if verdict_truthy else 'rejects', 'detached' if detached else 'attached')
+        if not crypto:
             rep.violation('C01.2', 'PGPKey.verify', 'no call self._key.verify(...)',
                           'verify never reaches the key material check', where=fi.where)
             continue
-        if not detached:
-            # the pair examined is the element of the loop over the collected (signature, subject) pairs: $k_0 / $k_1
-            m = re.match(r'^(\$\d+)_0\.hashdata\((\$\d+)_1\)$', crypto_calls[0][1][0] if crypto_calls[0][1] else '')
-            if m and m.group(1) == m.group(2):
-                S, J = m.group(1) + '_0', m.group(1) + '_1'
-        for ft, args, kw, line, node in crypto_calls:
-            seen_crypto += 1
+        for (ft, args, kw, line, node), s in crypto:
+            pair = verdict.loop_pair(fi, s)
+            if pair is None:
+                raise AnalysisError('PGPKey.verify: the key material is asked on a path where the verification loop binds no pair')
+            S, J = pair
             w = '%s:%d' % (fi.module.relpath, line)
-            exp = ['%s.hashdata(%s)' % (S, J), '%s.__sig__' % S, 'getattr(hashes, %s.hash_algorithm.name)()' % S]
+            exp = ['%s.hashdata(%s)' % (S, J), '%s.__sig__' % S]
             if not verdict_truthy:
-                rep.check(len(args) == 3 and args[0] == exp[0], 'C01.2', 'PGPKey.verify', 'hashed data argument %s' % (args[:1],),
+                rep.check(len(args) == 3 and not kw and args[0] == exp[0], 'C01.2', 'PGPKey.verify', 'hashed data argument %s' % (args[:1],),
                           'the data verified must be sig.hashdata(subj) of the pair being examined', where=w,
                           expected=exp[0], found=args[0] if args else None)
-                rep.check(len(args) == 3 and args[1] == exp[1], 'C01.2', 'PGPKey.verify', 'signature argument %s' % (args[1:2],),
+                rep.check(len(args) == 3 and not kw and args[1] == exp[1], 'C01.2', 'PGPKey.verify', 'signature argument %s' % (args[1:2],),
                           'the signature integers verified must be those of the signature being examined', where=w,
                           expected=exp[1], found=args[1] if len(args) > 1 else None)
                 families.check_hash_object(rep, prog, 'C01.2', 'PGPKey.verify', args[2] if len(args) > 2 else None, S, w)
-        # verdict polarity
-        crypto_records = [r for r in records if len(r[1]) >= 4 and ('WrongSig' in r[1][3] or r[1][3] == 'SecurityIssues.OK')
-                          or (len(r[1]) < 4 and 'issues' not in r[2])]
+        # verdict polarity: every record made on a path through the key material check carries the verdict of that check,
+        # for the pair of that path
         want = 'SecurityIssues.OK' if verdict_truthy else 'SecurityIssues.WrongSig'
-        good = [r for r in records if len(r[1]) >= 4 and r[1][3] == want and r[1][0] == S and r[1][2] == J]
-        bad = [r for r in records if len(r[1]) >= 4 and r[1][3] in ('SecurityIssues.OK', 'SecurityIssues.WrongSig') and r[1][3] != want]
+        good, bad, shown = [], [], []
+        for call, s in records:
+            a = verdict.record_args(prog, call)
+            shown.append(a)
+            if a[3] not in ('SecurityIssues.OK', 'SecurityIssues.WrongSig'):
+                continue
+            if a[3] == want and (a[0], a[2]) == verdict.loop_pair(fi, s):
+                good.append(a)
+            else:
+                bad.append(a)
         rep.check(bool(good) and not bad, 'C01.2', 'PGPKey.verify',
-                  'library result %s -> recorded %s' % ('truthy' if verdict_truthy else 'falsy', [r[1] for r in records]),
+                  'library result %s -> recorded %s' % ('truthy' if verdict_truthy else 'falsy', shown),
                   'a %s key-material result must be recorded as %s for (sig, subj)' % ('truthy' if verdict_truthy else 'falsy', want),
-                  where=fi.where, expected=want, found=[r[1] for r in records],
-                  scenario='library verify %s, %s' % ('accepts' if verdict_truthy else 'rejects', 'detached' if detached else 'attached'))
+                  where=fi.where, expected=want, found=shown, scenario=scen)
         if not verdict_truthy:
-            for ft, args, kw, line, node in delegations:
-                rep.check(ft == 'self.subkeys[%s.signer].verify' % S and args == [J, S], 'C01.2', 'PGPKey.verify',
+            for (ft, args, kw, line, node), s in delegations:
+                S, J = verdict.loop_pair(fi, s) or (None, None)
+                a = list(args[:2]) + [None] * (2 - len(args))
+                for k, v in kw.items():
+                    if k in vp:
+                        a[vp.index(k)] = v
+                rep.check(ft == 'self.subkeys[%s.signer].verify' % S and a == [J, S] and len(args) + len(kw) == 2, 'C01.2', 'PGPKey.verify',
                           'delegation %s(%s)' % (ft, ', '.join(args)),
                           'subkey delegation must hand the same (subj, sig) to the subkey named by sig.signer',
                           where='%s:%d' % (fi.module.relpath, line), expected='self.subkeys[%s.signer].verify(%s, %s)' % (S, J, S),
@@ -114,12 +101,7 @@ def check_verify_wiring(rep, prog):
             if not delegations:
                 rep.violation('C01.2', 'PGPKey.verify', 'no subkey delegation',
                               'signatures issued by a subkey are not delegated to that subkey', where=fi.where)
-    # NotImplemented must not be treated as a verdict
-    src = ast.unparse(fi.node)
-    has_ni = any(isinstance(n, ast.Compare) and any(isinstance(c, ast.Name) and c.id == 'NotImplemented' for c in n.comparators)
-                 for n in ast.walk(fi.node))
-    rep.check(has_ni, 'C01.2', 'PGPKey.verify', 'NotImplemented check', 'a NotImplemented result of the key material must raise, not be recorded',
-              where=fi.where)
+    check_not_implemented(rep, prog)
     # PubKeyV4.verify delegates with the same argument roles
     pv = prog.method('pgpy.packet.packets', 'PubKeyV4', 'verify')
     outs = Interp(prog, Scenario(inline=lambda f: False)).run(pv)
@@ -130,87 +112,128 @@ def check_verify_wiring(rep, prog):
                   expected=exp, found=render(s.ret))
 
 
+def check_not_implemented(rep, prog):
+    """NotImplemented (the abstract key material's answer) must not be treated as a verdict: on every path that records the
+    result of the key material, a decision comparing that result with NotImplemented was taken and says "it is not"; the
+    other outcome raises.  Decided on the paths of the detached scenario (pair list known, so decisions are kept)."""
+    fi, outs, _ = verdict.run_verify(prog, detached=True, F=False, V=None)
+    rep.analysed['paths'] += len(outs)
+    n = 0
+    ok = True
+    why = None
+    for s in outs:
+        crypto = [c for c in s.calls if c[0] == 'self._key.verify']
+        if not crypto:
+            continue
+        texts = set('%s(%s)' % (c[0], ', '.join(c[1] + ['%s=%s' % kv for kv in c[2].items()])) for c in crypto)
+        fact = None
+        for text, value, sk in s.facts:
+            for a in guards.atoms(sk):
+                eq = guards.equality_of(a)
+                if eq is not None and ((eq[0] in texts and eq[1] == 'NotImplemented') or (eq[1] in texts and eq[0] == 'NotImplemented')):
+                    fact = (text, value, sk, a, eq)
+        recorded = any(c[0].endswith('.add_sigsubj') for c in s.calls) and s.raised is None
+        if fact is None:
+            if recorded:
+                n += 1
+                ok, why = False, 'a path records the result of the key material without comparing it with NotImplemented'
+            continue
+        text, value, sk, a, eq = fact
+        on_ni = guards.eval_skel(sk, lambda at: (eq[2] if at is a else None))
+        on_other = guards.eval_skel(sk, lambda at: ((not eq[2]) if at is a else None))
+        if recorded:
+            n += 1
+            if on_ni is None or on_other is None or on_ni == on_other or value != on_other:
+                ok, why = False, 'a NotImplemented result of the key material is recorded as a verdict (decision %s = %s)' % (text, value)
+    if n == 0:
+        raise AnalysisError('PGPKey.verify: no path records a key-material result in the detached scenario')
+    rep.check(ok, 'C01.2', 'PGPKey.verify', 'NotImplemented check', 'a NotImplemented result of the key material must raise, not be recorded',
+              where=fi.where, found=why)
+
+
 # ------------------------------------------------------------------------------------------------ C01.3
 def check_material_verify(rep, prog):
+    """Decided on interpreter paths with the three caller values pinned by parameter position (<subj>, <sigbytes>,
+    <hash_alg>): a path whose return value is not a falsy constant must have made the library call and must not have
+    passed through any exception handler; the library call receives the caller's values in their roles."""
     fields = prog.module('pgpy.packet.fields')
     n = 0
     for ci in fields.classes.values():
         f = ci.methods.get('verify')
         if f is None:
             continue
-        body = [st for st in f.node.body if not (isinstance(st, ast.Expr) and isinstance(st.value, ast.Constant))]
-        if len(body) == 1 and isinstance(body[0], ast.Return) and isinstance(body[0].value, ast.Name) and \
-                body[0].value.id == 'NotImplemented':
+        p = f.params
+        if len(p) != 4:
+            raise AnalysisError('%s.verify no longer takes (subj, sigbytes, hash_alg)' % ci.name)
+        sc = Scenario(args={p[1]: Sym('<subj>', nonnull=True), p[2]: Sym('<sigbytes>', nonnull=True), p[3]: Sym('<hash_alg>', nonnull=True)},
+                      inline=lambda fn: False)
+        outs = Interp(prog, sc).run(f)
+
+        def lib(c):
+            return c[0].endswith('.verify') and '__pubkey__' in c[0]
+        if outs and all(s.raised is None and s.ret is not None and render(s.ret) == 'NotImplemented' and not any(lib(c) for c in s.calls)
+                        for s in outs):
             continue   # abstract default: PGPKey.verify turns NotImplemented into an exception (C01.2)
         n += 1
         rep.saw(fn=f)
         construct = '%s.verify' % ci.name
-        g = CFG(f.node)
-        rep.analysed['paths'] += 1
-
-        def is_lib_verify(call):
-            return isinstance(call.func, ast.Attribute) and call.func.attr == 'verify' and \
-                '__pubkey__' in ast.unparse(call.func.value)
-        lib_nodes = [nd for nd in g.nodes if nd.ast is not None and nd.kind == 'stmt' and
-                     any(is_lib_verify(c) for c in calls_in(nd.ast))]
-        if not lib_nodes:
+        rep.analysed['paths'] += len(outs)
+        libcalls = []
+        for s in outs:
+            for c in s.calls:
+                if lib(c) and c not in libcalls:
+                    libcalls.append(c)
+        if not libcalls:
             rep.violation('C01.3', construct, 'no call self.__pubkey__().verify(...)',
                           'the method never asks the cryptographic library', where=f.where)
             continue
-        handler_nodes = set(nd.id for nd in g.nodes if nd.kind == 'handler')
-        for nd in g.nodes:
-            if nd.kind != 'stmt' or not isinstance(nd.ast, ast.Return):
+        for s in outs:
+            if s.raised is not None:
                 continue
-            v = nd.ast.value
-            truthy = None
-            if isinstance(v, ast.Constant):
-                truthy = bool(v.value)
-            w = '%s:%d' % (f.module.relpath, nd.lineno)
-            if truthy is False:
-                rep.ok('C01.3', construct, 'falsy return at line %d' % nd.lineno)
+            v = s.ret
+            rt = render(v) if v is not None else 'None'
+            if v is None or (isinstance(v, Const) and not isinstance(v.value, Enum) and not v.value):
+                rep.ok('C01.3', construct, 'falsy return %s on path %s' % (rt, [x[0] for x in s.facts]))
                 continue
-            # truthy or unknown return: must be reachable only through a *normal* completion of the library call
-            through_normal = True
-            for ln in lib_nodes:
-                pass
-            # remove the normal out-edges of the library-call nodes: the return must become unreachable
-            skip = set()
-            for ln in lib_nodes:
-                for m, lab in g.succ[ln.id]:
-                    if lab != 'exc':
-                        skip.add((ln.id, m, lab))
-            r = g.reachable(g.entry.id, skip_edges=skip)
-            ok = nd.id not in r
-            rep.check(ok, 'C01.3', construct, 'return %s' % ast.unparse(v) if v is not None else 'return',
+            # truthy or unknown return: only after a *normal* completion of the library call
+            asked = any(lib(c) for c in s.calls)
+            handled = [x[0] for x in s.facts if x[0].startswith('except')]
+            rep.check(asked and not handled, 'C01.3', construct, 'return %s' % rt,
                       'a non-false return is reachable without the library having accepted the signature '
-                      '(handler fall-through or early return)', where=w,
+                      '(handler fall-through or early return)', where=f.where,
                       expected='every path to a truthy return passes the normal exit of self.__pubkey__().verify(...)',
-                      found='return %s reachable when the library call raised or was skipped' % (ast.unparse(v) if v is not None else ''))
+                      found='return %s reachable when the library call %s' % (rt, 'raised (%s)' % ', '.join(handled) if handled else 'was skipped'))
+        # the library rejects (its verify raises InvalidSignature at the call, in the state reached so far): no truthy result
+        sc2 = Scenario(args=sc.args, inline=sc.inline, raises=lambda ft: 'InvalidSignature' if ft.endswith('.verify') and '__pubkey__' in ft else None)
+        outs2 = Interp(prog, sc2).run(f)
+        rep.analysed['paths'] += len(outs2)
+        for s in outs2:
+            if s.raised is not None or not any(lib(c) for c in s.calls):
+                continue
+            v = s.ret
+            rt = render(v) if v is not None else 'None'
+            rep.check(v is None or (isinstance(v, Const) and not isinstance(v.value, Enum) and not v.value), 'C01.3', construct,
+                      'library raises InvalidSignature -> return %s' % rt,
+                      'a non-false return is reachable without the library having accepted the signature '
+                      '(handler fall-through or early return)', where=f.where, expected='falsy constant or an exception',
+                      found='return %s after the library call raised' % rt, scenario='library verify raises InvalidSignature')
         # handlers: only InvalidSignature is swallowed
         for st in ast.walk(f.node):
             if isinstance(st, ast.ExceptHandler):
                 names = [dotted(e) for e in (st.type.elts if isinstance(st.type, ast.Tuple) else [st.type])] if st.type is not None else [None]
-                rep.check(names == ['InvalidSignature'], 'C01.3', construct, 'except %s' % names,
+                rep.check([x.split('.')[-1] if x else x for x in names] == ['InvalidSignature'], 'C01.3', construct, 'except %s' % names,
                           'only InvalidSignature may be converted into a verdict', where='%s:%d' % (f.module.relpath, st.lineno),
                           expected="['InvalidSignature']", found=names)
         # argument roles of the library call
-        I = Interp(prog, Scenario(inline=lambda fn: False))
-        outs = I.run(f)
-        libcalls = []
-        for s in outs:
-            for c in s.calls:
-                if c[0].endswith('.verify') and '__pubkey__' in c[0] and c not in libcalls:
-                    libcalls.append(c)
         for ft, args, kw, line, node in libcalls:
             w = '%s:%d' % (f.module.relpath, line)
             # the caller's signature octets, unchanged or left-padded with zero octets (RSA); never sliced or rebuilt
-            sig_ok = len(args) >= 2 and re.match(r'^(REP\(C\(00\);[^;]*\) )?sigbytes$', args[0]) is not None
-            subj_ok = len(args) >= 2 and (args[1] == 'subj' or
-                                          (args[1].startswith('HASH(hash_alg;') and args[1].rstrip(')').endswith('subj')))
+            sig_ok = len(args) >= 2 and re.match(r'^(REP\(C\(00\);[^;]*\) )?<sigbytes>$', args[0]) is not None
+            subj_ok = len(args) >= 2 and args[1] in ('<subj>', 'HASH(<hash_alg>;<subj>)')
             rep.check(sig_ok and subj_ok, 'C01.3', construct, 'library verify(%s)' % ', '.join(args),
                       'the library must verify the caller\'s signature bytes over the caller\'s data', where=w,
-                      expected='verify(<sigbytes>, subj | HASH(hash_alg; subj), ...)', found=args)
-            if args and 'hash_alg' not in ' '.join(args):
+                      expected='verify(<sigbytes>, <subj> | HASH(<hash_alg>;<subj>), ...)', found=args)
+            if args and '<hash_alg>' not in ' '.join(args + list(kw.values())):
                 rep.violation('C01.3', construct, 'library verify(%s) ignores hash_alg' % ', '.join(args),
                               'the hash algorithm named by the signature is not used', where=w)
     if n == 0:
